@@ -19,6 +19,12 @@ package node
 // ------------------------------------------------------------------------------------------------
 // Fast-forward (C12, C14, C10)
 
+// checkFrameEvent accepts exactly the frame events that Reset can insert and sort (hg.FESound).
+//@ func checkFrameEvent(ev *hg.FrameEvent) error
+//@   safety on
+//@   modifies nothing
+//@   ensures[sound] ret0 == nil ==> hg.FESound(ev)
+
 //@ func (c *core) fastForward(block *hg.Block, frame *hg.Frame) error
 //@   requires c != nil && c.hg != nil && c.validator != nil && block != nil && frame != nil && len(frame.Peers) < 2147483648
 //@   requires forall r int :: __in(r, frame.PeerSets) ==> len(frame.PeerSets[r]) < 2147483648
@@ -32,8 +38,11 @@ package node
 //@   loop 1 invariant[peers]    forall i int :: 0 <= i && i < __idx() ==> frame.Peers[i] != nil
 //@   loop 2 invariant[sets]     forall r int :: __vis(r) ==> (forall i int :: 0 <= i && i < len(frame.PeerSets[r]) ==> frame.PeerSets[r][i] != nil)
 //@   loop 3 invariant[set]      forall i int :: 0 <= i && i < __idx() ==> ps[i] != nil
-//@   loop 4 invariant[wf]       c.validators != nil && c.validators.WF() && c.peers != nil && c.peers.WF()
-//@   loop 4 invariant[latest]   c.validators != nil && lastRound >= frame.Round && (forall r int :: __vis(r) ==> r <= lastRound) && ((lastRound == frame.Round && __eq(c.validators.Peers, frame.Peers)) || (lastRound > frame.Round && __in(lastRound, frame.PeerSets) && __eq(c.validators.Peers, frame.PeerSets[lastRound])))
+//@   loop 4 invariant[roots]    forall k string :: __vis(k) ==> hg.RootSound(frame.Roots[k])
+//@   loop 5 invariant[root]     forall i int :: 0 <= i && i < __idx() ==> hg.FESound(r.Events[i])
+//@   loop 6 invariant[events]   forall i int :: 0 <= i && i < __idx() ==> hg.FESound(frame.Events[i])
+//@   loop 7 invariant[wf]       c.validators != nil && c.validators.WF() && c.peers != nil && c.peers.WF()
+//@   loop 7 invariant[latest]   c.validators != nil && lastRound >= frame.Round && (forall r int :: __vis(r) ==> r <= lastRound) && ((lastRound == frame.Round && __eq(c.validators.Peers, frame.Peers)) || (lastRound > frame.Round && __in(lastRound, frame.PeerSets) && __eq(c.validators.Peers, frame.PeerSets[lastRound])))
 //@   ensures[sets-wf]           ret0 == nil ==> c.validators != nil && c.validators.WF() && c.peers != nil && c.peers.WF()
 //@   ensures[refused-untouched]  ret0 != nil && !__called("Reset") ==> __unchanged(c.validators, c.peers, c.peerSelector, c.head, c.seq, c.hg)
 //@   ensures[refused-untouched-hg]  ret0 != nil && !__called("Reset") ==> __eq(c.hg.Snapshot(), old(c.hg.Snapshot()))
